@@ -83,17 +83,42 @@ func (c *ctl) hook(ev int, a, b uintptr, id uintptr) {
 	c.obs[r] = append(c.obs[r], [3]uintptr{uintptr(ev), a, id})
 }
 
-func lazyInput() []byte {
-	inner := &lazyopaque.Node{}
-	inner.SetInt32(7)
-	outer := &lazyopaque.Node{}
-	outer.SetNested(inner)
-	outer.SetInt32(1)
-	b, err := proto.Marshal(outer)
-	if err != nil {
-		panic(err)
+// lazyInput builds the wire image the readers share. kind "one" (default): the lazy field occurs once, so the lazy
+// index has one entry for it; kind "split": it occurs twice with another field in between (nested{int32:7},
+// int32:1, nested{int64:9}), so lazyUnmarshal takes its multiple-entries branch and merges both occurrences into the
+// private object before the compare-and-swap. The publication protocol of LazyConc is the same for both shapes.
+func lazyInput(kind string) []byte {
+	enc := func(fill func(outer *lazyopaque.Node)) []byte {
+		outer := &lazyopaque.Node{}
+		fill(outer)
+		b, err := proto.Marshal(outer)
+		if err != nil {
+			panic(err)
+		}
+		return b
 	}
-	return b
+	n7 := func(outer *lazyopaque.Node) {
+		inner := &lazyopaque.Node{}
+		inner.SetInt32(7)
+		outer.SetNested(inner)
+	}
+	one := func(outer *lazyopaque.Node) { outer.SetInt32(1) }
+	if kind == "split" {
+		n9 := func(outer *lazyopaque.Node) {
+			inner := &lazyopaque.Node{}
+			inner.SetInt64(9)
+			outer.SetNested(inner)
+		}
+		return append(append(enc(n7), enc(one)...), enc(n9)...)
+	}
+	return enc(func(outer *lazyopaque.Node) { n7(outer); one(outer) })
+}
+
+func inputKind(c core.Case) string {
+	if v, ok := c["input"]; ok && v != nil {
+		return core.Str(v)
+	}
+	return "one"
 }
 
 // runProg is what reader r does; it returns the identity of the submessage it obtained (0 for "raw").
@@ -119,7 +144,7 @@ func lazyExec(c core.Case) core.Case {
 	}
 	n := len(progs)
 	m := &lazyopaque.Node{}
-	if err := proto.Unmarshal(lazyInput(), m); err != nil {
+	if err := proto.Unmarshal(lazyInput(inputKind(c)), m); err != nil {
 		panic(err)
 	}
 	k := &ctl{reader: map[int64]int{}, gates: make([]chan struct{}, n), arrived: make(chan arrival), obs: make([][][3]uintptr, n), mine: make([]uintptr, n)}
@@ -279,8 +304,14 @@ func lazyExec(c core.Case) core.Case {
 			fail("%d compare-and-swap operations succeeded", winners)
 		}
 		if objReaders > 0 && why == "" {
-			if got := (*lazyopaque.Node)(unsafe.Pointer(inst)).GetInt32(); got != 7 {
+			sub := (*lazyopaque.Node)(unsafe.Pointer(inst))
+			if got := sub.GetInt32(); got != 7 {
 				fail("published submessage has content %d, want 7", got)
+			}
+			if inputKind(c) == "split" && why == "" {
+				if got := sub.GetInt64(); got != 9 {
+					fail("published submessage lacks the second occurrence: int64 = %d, want 9", got)
+				}
 			}
 		}
 	}
@@ -297,7 +328,7 @@ func lazyGen(r *rand.Rand, n int, emit func(core.Case)) {
 		for j := 0; j < k; j++ {
 			ps = append(ps, progs[r.IntN(3)])
 		}
-		emit(core.Case{"progs": ps, "steps": []any{}})
+		emit(core.Case{"progs": ps, "steps": []any{}, "input": []string{"one", "split"}[r.IntN(2)]})
 	}
 }
 
@@ -344,7 +375,7 @@ func freeExec(c core.Case) core.Case {
 	}
 	n := len(progs)
 	m := &lazyopaque.Node{}
-	if err := proto.Unmarshal(lazyInput(), m); err != nil {
+	if err := proto.Unmarshal(lazyInput(inputKind(c)), m); err != nil {
 		panic(err)
 	}
 	f := &freeRec{reader: map[int64]int{}, obs: make([][][2]int, n), mine: make([]uintptr, n)}
@@ -403,6 +434,6 @@ func freeGen(r *rand.Rand, n int, emit func(core.Case)) {
 		for j := 0; j < k; j++ {
 			ps = append(ps, progs[r.IntN(len(progs))])
 		}
-		emit(core.Case{"progs": ps, "yield": r.IntN(2)})
+		emit(core.Case{"progs": ps, "yield": r.IntN(2), "input": []string{"one", "split"}[r.IntN(2)]})
 	}
 }
